@@ -100,6 +100,11 @@ def run(ctx):
     cfgs = gensrv.QUICK if ctx.tier == "quick" else gensrv.THOROUGH
     n = 1500 if ctx.tier == "quick" else 12000
     built = gensrv.build_matrix(ctx, "exec", cfgs)
+    # the same schema plus a directive `on FIELD`: field.gotpl then emits its _fieldMiddleware flavour
+    fd = gensrv.build_matrix(ctx, "execfd", ["base"] if ctx.tier == "quick" else ["base", "follow_funcsyn_wl2"])
+    for k, v in fd.items():
+        built["execfd:" + k] = v
+    cfgs = list(cfgs) + ["execfd:" + k for k in fd]
     dist = Counter()
     nontriv = set()
     total = 0
